@@ -162,7 +162,7 @@ class LawsRandom(Component):
         return law_case(tier)
 
     def check(self, case, ctx):
-        L, R = canon.build_table(case["L"]), canon.build_table(case["R"])
+        L, R = canon.build_pair(case)
         m = case["measure"]
         lkc, rkc = calls.out_key_cols(case)
         swapped = dict(case)
